@@ -18,7 +18,9 @@ Proof. intros ch bu cqs rb ver maxp acts e. exact (numbers e (WF_reach _ _ _ _ _
     connected -- then it does not have all four flags and its number stays allocated -- or the step
     ran a dispatcher function that rewrote the entry to some [c'] with
     [tx_dropped && rx_dropped && negb rx_open && rrx_dropped] ([all4]) and [maybe_free] removed it,
-    releasing the number ([DropNumber p]) in that very step: never earlier, never later. *)
+    releasing the number ([DropNumber p]) in that very step: never earlier, never later.
+    ([disp_mux e a] is the mux the dispatcher function runs on: [mx e], except that for a received
+    message the occupancy of a closed listener queue counts as 0; its port table is that of [mx e].) *)
 Theorem C07_free_iff : forall ch bu cqs rb ver maxp acts a e' p c,
   let e := reach ch bu cqs rb ver maxp acts in
   step_opt e a = Some e' -> dead e' = None -> lookup p (ports (mx e)) = Some (Connected c) ->
@@ -28,7 +30,7 @@ Theorem C07_free_iff : forall ch bu cqs rb ver maxp acts a e' p c,
          exists effs, disp_outcome e a = Some (Done (mx e') effs) /\
                       lookup p (ports (mx e')) = None /\ In (DropNumber p) effs /\
                       exists c', all4 c' = true /\ remote c' = remote c /\
-                                 maybe_free (mx e <| ports := insert p (Connected c') (ports (mx e)) |>) p
+                                 maybe_free (disp_mux e a <| ports := insert p (Connected c') (ports (disp_mux e a)) |>) p
                                  = Some (mx e', [DropNumber p])
   end.
 Proof. intros ch bu cqs rb ver maxp acts a e' p c e. exact (free_iff e a e' p c (WF_reach _ _ _ _ _ _ _)). Qed.
